@@ -21,8 +21,12 @@ MW_DEV = ['raise-before', 'raise-after', 'early-response', 'swallow', 'replace-a
 def strategy():
     from vlib import gen_config as G
     from hypothesis import strategies as st
+    # half of the configurations only use names that are offered to the function (high acceptance), the other half also draw
+    # parameters nothing outside offers - e.g. an optional parameter whose name a middleware further *inside* provides
     cfg = st.one_of(G.config(max_levels=1, free_p=0.0, posonly=False, nonreorderable=True, max_mws=5, all_kinds=False),
-                    G.config(max_levels=3, free_p=0.0, posonly=False, nonreorderable=True, max_mws=6, all_kinds=False))
+                    G.config(max_levels=3, free_p=0.0, posonly=False, nonreorderable=True, max_mws=6, all_kinds=False),
+                    G.config(max_levels=1, free_p=0.08, posonly=False, nonreorderable=True, max_mws=5, all_kinds=False),
+                    G.config(max_levels=3, free_p=0.08, posonly=False, nonreorderable=True, max_mws=6, all_kinds=False))
     sib_mw = st.fixed_dictionaries({'tid': st.integers(0, 5), 'style': st.sampled_from(['func', 'method']),
                                     'request': st.sampled_from([[], None]), 'endpoint': st.sampled_from([None, []]), 'render': st.just(None)}
                                    ).map(lambda m: dict(m, unique=m['tid'] < 4, reorderable=True, provides=[], endpoint_provides=[], render_provides=[]))
